@@ -412,6 +412,46 @@ theorem observed_level_justified (root : Level) (hr : Level.Valid root) {s s' : 
   | unlock after hi hna => simp at ha
   | format l hi => simp at ha
 
+/-- **operations that do not overlap a `set` see exactly the sequential result**: an atomic level load made while no
+thread is inside the store loop of a `set` (in particular every load of a schedule that runs the calls one after the
+other) returns precisely the specified level for the completed `set`s. -/
+theorem observed_level_exact_when_no_set_in_progress (root : Level) (hr : Level.Valid root) {s s' : Sys} {i : Tid}
+    {acc : List Access} (h : Reachable root s) (st : Step s i acc s') (p : Loc) (x : Nat)
+    (ha : Access.atomicLoad p x ∈ acc) (hq : ∀ j l v todo, s.ph j ≠ .setStore l v todo) :
+    x = convertLevel (levelOf root s.done p) := by
+  rcases observed_level_justified root hr h st p x ha with h1 | ⟨j, l, v, todo, hj, _⟩
+  · exact h1
+  · exact absurd hj (hq j l v todo)
+
+/-- **a node created by a constructor starts with the specified level** of its location (it inherits, under the lock,
+from a parent that holds the specified level): right after `find_location` / `find_child` the object's node exists
+and holds `levelOf` of the completed `set`s. -/
+theorem created_node_has_linearised_level (root : Level) (hr : Level.Valid root) {s s' : Sys} {i : Tid} {acc : List Access}
+    (h : Reachable root s) (st : Step s i acc s') (l : Loc) (hi : s.ph i = .createFind l) :
+    lvlAt s'.tree l = some (convertLevel (levelOf root s'.done l)) := by
+  have hd' := DInv.of_reachable hr (Reachable.step h st)
+  cases st with
+  | createFind l' hi' =>
+    rw [hi] at hi'
+    injection hi' with hl
+    subst hl
+    have hn : NoStore { s with tree := ensure s.tree l, ph := upd s.ph i (.unlock (.format l)) } :=
+      hd'.noStore_of_holder (i := i) (by simp [upd, Phase.holds]) (by simp [upd])
+    have hinv := hd'.quiet hn
+    have hex : (lvlAt (ensure s.tree l) l).isSome = true := hd'.fmtp i l (Or.inr (by simp [upd]))
+    cases hx : lvlAt (ensure s.tree l) l with
+    | none => simp [hx] at hex
+    | some x => simp only; rw [hinv.level l x hx]
+  | call c hi' hv => rw [hi] at hi'; cases hi'
+  | acquire c hi' hfree => rw [hi] at hi'; cases hi'
+  | setFind l' v hi' => rw [hi] at hi'; cases hi'
+  | setStore l' v q todo hi' => rw [hi] at hi'; cases hi'
+  | setDone l' v hi' => rw [hi] at hi'; cases hi'
+  | getRead l' hi' => rw [hi] at hi'; cases hi'
+  | unlock after hi' hna => rw [hi] at hi'; cases hi'
+  | format l' hi' => rw [hi] at hi'; cases hi'
+  | load p' val hi' ho hl => rw [hi] at hi'; cases hi'
+
 /-- in a state where no `set` is in its store loop (in particular whenever the mutex is free), the tree is
 exactly what the sequential specification says for the linearised history -/
 theorem quiescent_tree_matches_linearisation (root : Level) (hr : Level.Valid root) {s : Sys} (h : Reachable root s)
